@@ -69,4 +69,40 @@
 	((uint64_t)(SINGLE_BI(bi) ? ((c) ? 0ULL : (VN63(bi) & ~1ULL)) : \
 	 (c) <= 64U ? (VN63(bi) & ~1ULL) : (c) >= 128U ? 0ULL : ((VN63(bi) >> ((c) - 64U)) << ((c) - 64U))))
 
+/* ---- signed, 383: 12 words each; native list (pos[0] even: count = pos[0]>>1 <= 12, values in neg[]
+ * in rank order) or bitset (pos[0] odd: bit x%32 of pos[x/32] for x>0, bit k%32 of neg[k/32] for -k<=0) */
+#define BS_383(bi)	(((bi)->pos[0] & 1U) != 0U)
+#define CNT_383(bi)	((bi)->pos[0] >> 1U)
+#define INR_383(x)	(-383 <= (x) && (x) <= 383)
+#define RANK_LT(a, b)	(((a) >= 0 && (b) >= 0) ? (a) < (b) : ((a) < 0 && (b) < 0) ? (a) > (b) : (a) >= 0)
+#define HASN_383(bi, x)	((CNT_383(bi) > 0U && (bi)->neg[0] == (x)) || (CNT_383(bi) > 1U && (bi)->neg[1] == (x)) || (CNT_383(bi) > 2U && (bi)->neg[2] == (x)) || (CNT_383(bi) > 3U && (bi)->neg[3] == (x)) || (CNT_383(bi) > 4U && (bi)->neg[4] == (x)) || (CNT_383(bi) > 5U && (bi)->neg[5] == (x)) || (CNT_383(bi) > 6U && (bi)->neg[6] == (x)) || (CNT_383(bi) > 7U && (bi)->neg[7] == (x)) || (CNT_383(bi) > 8U && (bi)->neg[8] == (x)) || (CNT_383(bi) > 9U && (bi)->neg[9] == (x)) || (CNT_383(bi) > 10U && (bi)->neg[10] == (x)) || (CNT_383(bi) > 11U && (bi)->neg[11] == (x)))
+#define HASB_383(bi, x)	((x) > 0 ? (((bi)->pos[((unsigned)(x) / 32U) % 12U] >> ((unsigned)(x) % 32U)) & 1U) != 0U : (((uint32_t)(bi)->neg[((unsigned)(-(x)) / 32U) % 12U] >> ((unsigned)(-(x)) % 32U)) & 1U) != 0U)
+#define HAS_383(bi, x)	(INR_383(x) && (BS_383(bi) ? HASB_383(bi, x) : HASN_383(bi, x)))
+#define WFN_383(bi)	(CNT_383(bi) <= 12U && (CNT_383(bi) > 0U || (bi)->neg[0] == 0) && (CNT_383(bi) > 1U || (bi)->neg[1] == 0) && (CNT_383(bi) > 2U || (bi)->neg[2] == 0) && (CNT_383(bi) > 3U || (bi)->neg[3] == 0) && (CNT_383(bi) > 4U || (bi)->neg[4] == 0) && (CNT_383(bi) > 5U || (bi)->neg[5] == 0) && (CNT_383(bi) > 6U || (bi)->neg[6] == 0) && (CNT_383(bi) > 7U || (bi)->neg[7] == 0) && (CNT_383(bi) > 8U || (bi)->neg[8] == 0) && (CNT_383(bi) > 9U || (bi)->neg[9] == 0) && (CNT_383(bi) > 10U || (bi)->neg[10] == 0) && (CNT_383(bi) > 11U || (bi)->neg[11] == 0) && (CNT_383(bi) <= 1U || RANK_LT((bi)->neg[0], (bi)->neg[1])) && (CNT_383(bi) <= 2U || RANK_LT((bi)->neg[1], (bi)->neg[2])) && (CNT_383(bi) <= 3U || RANK_LT((bi)->neg[2], (bi)->neg[3])) && (CNT_383(bi) <= 4U || RANK_LT((bi)->neg[3], (bi)->neg[4])) && (CNT_383(bi) <= 5U || RANK_LT((bi)->neg[4], (bi)->neg[5])) && (CNT_383(bi) <= 6U || RANK_LT((bi)->neg[5], (bi)->neg[6])) && (CNT_383(bi) <= 7U || RANK_LT((bi)->neg[6], (bi)->neg[7])) && (CNT_383(bi) <= 8U || RANK_LT((bi)->neg[7], (bi)->neg[8])) && (CNT_383(bi) <= 9U || RANK_LT((bi)->neg[8], (bi)->neg[9])) && (CNT_383(bi) <= 10U || RANK_LT((bi)->neg[9], (bi)->neg[10])) && (CNT_383(bi) <= 11U || RANK_LT((bi)->neg[10], (bi)->neg[11])) && (CNT_383(bi) <= 0U || INR_383((bi)->neg[0])) && (CNT_383(bi) <= 1U || INR_383((bi)->neg[1])) && (CNT_383(bi) <= 2U || INR_383((bi)->neg[2])) && (CNT_383(bi) <= 3U || INR_383((bi)->neg[3])) && (CNT_383(bi) <= 4U || INR_383((bi)->neg[4])) && (CNT_383(bi) <= 5U || INR_383((bi)->neg[5])) && (CNT_383(bi) <= 6U || INR_383((bi)->neg[6])) && (CNT_383(bi) <= 7U || INR_383((bi)->neg[7])) && (CNT_383(bi) <= 8U || INR_383((bi)->neg[8])) && (CNT_383(bi) <= 9U || INR_383((bi)->neg[9])) && (CNT_383(bi) <= 10U || INR_383((bi)->neg[10])) && (CNT_383(bi) <= 11U || INR_383((bi)->neg[11])))
+#define WF_383(bi)	(BS_383(bi) || WFN_383(bi))
+#define BEFOREB_383(c, q)	((q) == 0 ? (c) >= 1U : (q) > 0 ? ((c) > (size_t)(q)) : ((c) > 384U + (size_t)(-(q))))
+#define BEFOREN_383(bi, c, q)	((0U < (c) && CNT_383(bi) > 0U && (bi)->neg[0] == (q)) || (1U < (c) && CNT_383(bi) > 1U && (bi)->neg[1] == (q)) || (2U < (c) && CNT_383(bi) > 2U && (bi)->neg[2] == (q)) || (3U < (c) && CNT_383(bi) > 3U && (bi)->neg[3] == (q)) || (4U < (c) && CNT_383(bi) > 4U && (bi)->neg[4] == (q)) || (5U < (c) && CNT_383(bi) > 5U && (bi)->neg[5] == (q)) || (6U < (c) && CNT_383(bi) > 6U && (bi)->neg[6] == (q)) || (7U < (c) && CNT_383(bi) > 7U && (bi)->neg[7] == (q)) || (8U < (c) && CNT_383(bi) > 8U && (bi)->neg[8] == (q)) || (9U < (c) && CNT_383(bi) > 9U && (bi)->neg[9] == (q)) || (10U < (c) && CNT_383(bi) > 10U && (bi)->neg[10] == (q)) || (11U < (c) && CNT_383(bi) > 11U && (bi)->neg[11] == (q)))
+#define BEFORE_383(bi, c, q)	(BS_383(bi) ? BEFOREB_383(c, q) : BEFOREN_383(bi, c, q))
+/* reachable cursors in bitset mode: start, after the zero slot, just past a positive member,
+ * just past a negative member */
+#define CUR_OK_383(bi, c)	(BS_383(bi) ? ((c) <= 1U || ((c) < 384U && HASB_383(bi, (int)(c) - 1)) || ((c) == 385U && HASB_383(bi, 383)) || (386U <= (c) && (c) <= 768U && HASB_383(bi, -((int)(c) - 385)))) : (c) <= CNT_383(bi))
+
+/* ---- signed, 447: 14 words each; native list (pos[0] even: count = pos[0]>>1 <= 14, values in neg[]
+ * in rank order) or bitset (pos[0] odd: bit x%32 of pos[x/32] for x>0, bit k%32 of neg[k/32] for -k<=0) */
+#define BS_447(bi)	(((bi)->pos[0] & 1U) != 0U)
+#define CNT_447(bi)	((bi)->pos[0] >> 1U)
+#define INR_447(x)	(-447 <= (x) && (x) <= 447)
+#define RANK_LT_UNUSED(a, b)	(((a) >= 0 && (b) >= 0) ? (a) < (b) : ((a) < 0 && (b) < 0) ? (a) > (b) : (a) >= 0)
+#define HASN_447(bi, x)	((CNT_447(bi) > 0U && (bi)->neg[0] == (x)) || (CNT_447(bi) > 1U && (bi)->neg[1] == (x)) || (CNT_447(bi) > 2U && (bi)->neg[2] == (x)) || (CNT_447(bi) > 3U && (bi)->neg[3] == (x)) || (CNT_447(bi) > 4U && (bi)->neg[4] == (x)) || (CNT_447(bi) > 5U && (bi)->neg[5] == (x)) || (CNT_447(bi) > 6U && (bi)->neg[6] == (x)) || (CNT_447(bi) > 7U && (bi)->neg[7] == (x)) || (CNT_447(bi) > 8U && (bi)->neg[8] == (x)) || (CNT_447(bi) > 9U && (bi)->neg[9] == (x)) || (CNT_447(bi) > 10U && (bi)->neg[10] == (x)) || (CNT_447(bi) > 11U && (bi)->neg[11] == (x)) || (CNT_447(bi) > 12U && (bi)->neg[12] == (x)) || (CNT_447(bi) > 13U && (bi)->neg[13] == (x)))
+#define HASB_447(bi, x)	((x) > 0 ? (((bi)->pos[((unsigned)(x) / 32U) % 14U] >> ((unsigned)(x) % 32U)) & 1U) != 0U : (((uint32_t)(bi)->neg[((unsigned)(-(x)) / 32U) % 14U] >> ((unsigned)(-(x)) % 32U)) & 1U) != 0U)
+#define HAS_447(bi, x)	(INR_447(x) && (BS_447(bi) ? HASB_447(bi, x) : HASN_447(bi, x)))
+#define WFN_447(bi)	(CNT_447(bi) <= 14U && (CNT_447(bi) > 0U || (bi)->neg[0] == 0) && (CNT_447(bi) > 1U || (bi)->neg[1] == 0) && (CNT_447(bi) > 2U || (bi)->neg[2] == 0) && (CNT_447(bi) > 3U || (bi)->neg[3] == 0) && (CNT_447(bi) > 4U || (bi)->neg[4] == 0) && (CNT_447(bi) > 5U || (bi)->neg[5] == 0) && (CNT_447(bi) > 6U || (bi)->neg[6] == 0) && (CNT_447(bi) > 7U || (bi)->neg[7] == 0) && (CNT_447(bi) > 8U || (bi)->neg[8] == 0) && (CNT_447(bi) > 9U || (bi)->neg[9] == 0) && (CNT_447(bi) > 10U || (bi)->neg[10] == 0) && (CNT_447(bi) > 11U || (bi)->neg[11] == 0) && (CNT_447(bi) > 12U || (bi)->neg[12] == 0) && (CNT_447(bi) > 13U || (bi)->neg[13] == 0) && (CNT_447(bi) <= 1U || RANK_LT((bi)->neg[0], (bi)->neg[1])) && (CNT_447(bi) <= 2U || RANK_LT((bi)->neg[1], (bi)->neg[2])) && (CNT_447(bi) <= 3U || RANK_LT((bi)->neg[2], (bi)->neg[3])) && (CNT_447(bi) <= 4U || RANK_LT((bi)->neg[3], (bi)->neg[4])) && (CNT_447(bi) <= 5U || RANK_LT((bi)->neg[4], (bi)->neg[5])) && (CNT_447(bi) <= 6U || RANK_LT((bi)->neg[5], (bi)->neg[6])) && (CNT_447(bi) <= 7U || RANK_LT((bi)->neg[6], (bi)->neg[7])) && (CNT_447(bi) <= 8U || RANK_LT((bi)->neg[7], (bi)->neg[8])) && (CNT_447(bi) <= 9U || RANK_LT((bi)->neg[8], (bi)->neg[9])) && (CNT_447(bi) <= 10U || RANK_LT((bi)->neg[9], (bi)->neg[10])) && (CNT_447(bi) <= 11U || RANK_LT((bi)->neg[10], (bi)->neg[11])) && (CNT_447(bi) <= 12U || RANK_LT((bi)->neg[11], (bi)->neg[12])) && (CNT_447(bi) <= 13U || RANK_LT((bi)->neg[12], (bi)->neg[13])) && (CNT_447(bi) <= 0U || INR_447((bi)->neg[0])) && (CNT_447(bi) <= 1U || INR_447((bi)->neg[1])) && (CNT_447(bi) <= 2U || INR_447((bi)->neg[2])) && (CNT_447(bi) <= 3U || INR_447((bi)->neg[3])) && (CNT_447(bi) <= 4U || INR_447((bi)->neg[4])) && (CNT_447(bi) <= 5U || INR_447((bi)->neg[5])) && (CNT_447(bi) <= 6U || INR_447((bi)->neg[6])) && (CNT_447(bi) <= 7U || INR_447((bi)->neg[7])) && (CNT_447(bi) <= 8U || INR_447((bi)->neg[8])) && (CNT_447(bi) <= 9U || INR_447((bi)->neg[9])) && (CNT_447(bi) <= 10U || INR_447((bi)->neg[10])) && (CNT_447(bi) <= 11U || INR_447((bi)->neg[11])) && (CNT_447(bi) <= 12U || INR_447((bi)->neg[12])) && (CNT_447(bi) <= 13U || INR_447((bi)->neg[13])))
+#define WF_447(bi)	(BS_447(bi) || WFN_447(bi))
+#define BEFOREB_447(c, q)	((q) == 0 ? (c) >= 1U : (q) > 0 ? ((c) > (size_t)(q)) : ((c) > 448U + (size_t)(-(q))))
+#define BEFOREN_447(bi, c, q)	((0U < (c) && CNT_447(bi) > 0U && (bi)->neg[0] == (q)) || (1U < (c) && CNT_447(bi) > 1U && (bi)->neg[1] == (q)) || (2U < (c) && CNT_447(bi) > 2U && (bi)->neg[2] == (q)) || (3U < (c) && CNT_447(bi) > 3U && (bi)->neg[3] == (q)) || (4U < (c) && CNT_447(bi) > 4U && (bi)->neg[4] == (q)) || (5U < (c) && CNT_447(bi) > 5U && (bi)->neg[5] == (q)) || (6U < (c) && CNT_447(bi) > 6U && (bi)->neg[6] == (q)) || (7U < (c) && CNT_447(bi) > 7U && (bi)->neg[7] == (q)) || (8U < (c) && CNT_447(bi) > 8U && (bi)->neg[8] == (q)) || (9U < (c) && CNT_447(bi) > 9U && (bi)->neg[9] == (q)) || (10U < (c) && CNT_447(bi) > 10U && (bi)->neg[10] == (q)) || (11U < (c) && CNT_447(bi) > 11U && (bi)->neg[11] == (q)) || (12U < (c) && CNT_447(bi) > 12U && (bi)->neg[12] == (q)) || (13U < (c) && CNT_447(bi) > 13U && (bi)->neg[13] == (q)))
+#define BEFORE_447(bi, c, q)	(BS_447(bi) ? BEFOREB_447(c, q) : BEFOREN_447(bi, c, q))
+/* reachable cursors in bitset mode: start, after the zero slot, just past a positive member,
+ * just past a negative member */
+#define CUR_OK_447(bi, c)	(BS_447(bi) ? ((c) <= 1U || ((c) < 448U && HASB_447(bi, (int)(c) - 1)) || ((c) == 449U && HASB_447(bi, 447)) || (450U <= (c) && (c) <= 896U && HASB_447(bi, -((int)(c) - 449)))) : (c) <= CNT_447(bi))
+
 #endif	/* INCLUDED_spec_view_h_ */
